@@ -84,9 +84,13 @@ func (s *SymbolTableStruct) Exists(name string) bool {
 // Get the Symbol with the specified name.
 // This function is thread-safe.
 func (s *SymbolTableStruct) Get(name string) (Symbol, bool) {
+	vhookSym("get.rlock.try", s, name, -1, false)
 	s.mutex.RLock()
+	vhookSym("get.rlocked", s, name, -1, false)
 	val, ok := s.nameTable[name]
+	vhookSym("get.read", s, name, val, ok)
 	s.mutex.RUnlock()
+	vhookSym("get.runlocked", s, name, val, ok)
 	if !ok {
 		return -1, false
 	}
@@ -97,13 +101,16 @@ func (s *SymbolTableStruct) Get(name string) (Symbol, bool) {
 // Get the name of the given symbol.
 // This function is thread-safe.
 func (s *SymbolTableStruct) GetName(symbol Symbol) (string, bool) {
+	vhookSym("getname.rlock.try", s, "", symbol, false)
 	s.mutex.RLock()
+	vhookSym("getname.rlocked", s, "", symbol, false)
 	defer s.mutex.RUnlock()
 
 	if symbol >= Symbol(len(s.idTable)) || symbol < 0 {
 		return "", false
 	}
 	val := s.idTable[symbol]
+	vhookSym("getname.read", s, val, symbol, true)
 
 	return val, true
 }
@@ -113,17 +120,22 @@ func (s *SymbolTableStruct) GetName(symbol Symbol) (string, bool) {
 // nothing happens and a pointer to it gets returned.
 // This function is thread-safe.
 func (s *SymbolTableStruct) Add(name string) Symbol {
+	vhookSym("add.lock.try", s, name, -1, false)
 	s.mutex.Lock()
+	vhookSym("add.locked", s, name, -1, false)
 	defer s.mutex.Unlock()
 
 	val, ok := s.nameTable[name]
+	vhookSym("add.lookup", s, name, val, ok)
 	if ok {
 		return val
 	}
 
 	symbol := Symbol(len(s.idTable))
 	s.nameTable[name] = symbol
+	vhookSym("add.name", s, name, symbol, true)
 	s.idTable = append(s.idTable, name)
+	vhookSym("add.insert", s, name, symbol, true)
 	return symbol
 }
 
